@@ -318,12 +318,17 @@ def run_case(case, res):
                 if any(c.data_id == src.data_id for c in target.children):
                     res.case(case, nontrivial=False)
                     return
-                new = target.add(src, deep=True)
+                # ... at any position of the target's child list (the copy is not necessarily the last child)
+                own_before = rng.choice([None, None, True, 0, -1] + list(target.children)[:2]) if target.children else rng.choice([None, True])
+                new = target.add(src, deep=True, before=own_before) if own_before is not None else target.add(src, deep=True)
                 got_nodes = [new]
                 exp = snap
                 copied_sources = None
                 kind_less_top = True
                 copy_side_tree = src_t
+                if shape([new]) != snap and not typed:
+                    bad.append(f"deep copy into the own branch (before={own_before!r}) is not the branch as it was before the call: "
+                               f"{describe([new])}")
                 # source must be unchanged except for the new branch
                 new.remove()
                 if ident(src_t) != before_src:
